@@ -47,6 +47,12 @@ pub fn ptr_len<T>(start: *const T, end: *const T) -> usize {
 pub struct IdEmitter(usize);
 
 impl IdEmitter {
+  /// Create an emitter that continues after `count` ids
+  /// have already been handed out
+  pub fn new(count: usize) -> Self {
+    Self(count)
+  }
+
   pub fn emit(&mut self) -> usize {
     let result = self.0;
     self.0 += 1;
